@@ -93,3 +93,4 @@ package objecttemplate
 //@ func package-operator.run/internal/controllers/objecttemplate.(*templateReconciler).getEnvironment
 //@   at GetEnvironment ghost envFetched() := true
 //@   ensures [C18] result1 == nil && !old(envFetched()) ==> envFetched()
+//@   ensures missingOpt() == old(missingOpt()) && sourcesOK() == old(sourcesOK())
